@@ -240,10 +240,12 @@ def _coqc_file(path: Path, timeout=900):
 
 
 RESULT_RE = re.compile(r"=\s*\(\s*(\d+)\s*,\s*(\d+)\s*,\s*\[([^\]]*)\]\s*\)")
+PAIR_RE = re.compile(r"\(\s*(-?\d+)\s*,\s*(-?\d+)\s*\)")
 
 
-def eval_cases(suite: str, module: str, terms: list[str], check_fn="check", extra_header="") -> dict:
-    """Evaluate `check_fn` of `module` on every term; returns indices where model and code differ."""
+def eval_cases(suite: str, module: str, terms: list[str], check_fn="mask", extra_header="") -> dict:
+    """Evaluate `mask` of `module` on every term; returns the indices where model and code differ together with
+    the kinds of observable that differ (bit mask; see Corr/CheckProg.v)."""
     d = WORK / "shards" / suite
     if d.exists():
         shutil.rmtree(d)
@@ -267,10 +269,10 @@ def eval_cases(suite: str, module: str, terms: list[str], check_fn="check", extr
         with open(p, "w", encoding="latin-1") as fh:
             fh.write(HEADER.format(mod=module) + extra_header)
             fh.write("Definition cases := [\n" + ";\n".join(terms[i] for i in idxs) + "\n].\n")
-            fh.write(f"Eval vm_compute in (failures {check_fn} cases).\n")
+            fh.write(f"Eval vm_compute in (failure_masks {check_fn} cases).\n")
         paths.append((idxs, len(idxs), p))
     t0 = time.time()
-    failing, evaluated, errors = [], 0, []
+    failing, evaluated, errors, masks = [], 0, [], {}
     with ThreadPoolExecutor(NCPU) as ex:
         for (start, n, p), (rc, out, dt) in zip(paths, ex.map(lambda x: _coqc_file(x[2]), paths)):
             m = RESULT_RE.search(out.replace("\n", " "))
@@ -281,11 +283,14 @@ def eval_cases(suite: str, module: str, terms: list[str], check_fn="check", extr
                 errors.append(f"{p.name}: evaluated {m.group(1)} of {n}")
             evaluated += int(m.group(1))
             nfail = int(m.group(2))
-            idx = [int(x) for x in m.group(3).replace(" ", "").split(";") if x]
+            pairs = [(int(a), int(b)) for a, b in PAIR_RE.findall(m.group(3))]
+            idx = [a for a, _ in pairs]
             failing += [start[i] for i in idx]
+            for a, b in pairs:
+                masks[start[a]] = b
             if nfail > len(idx):
                 errors.append(f"{p.name}: {nfail} disagreements, first {len(idx)} listed")
-    return {"evaluated": evaluated, "failing": failing, "errors": errors, "shards": len(shards), "coq_s": round(time.time() - t0, 1)}
+    return {"evaluated": evaluated, "failing": failing, "masks": masks, "errors": errors, "shards": len(shards), "coq_s": round(time.time() - t0, 1)}
 
 
 def explain(suite: str, module: str, term: str, expr="run c", extra_header="") -> str:
